@@ -38,6 +38,24 @@ def gen_histories(tier, seed):
     add("event histories", 80, lambda: sg.events_history(rng, rng.randint(15, 80)))
     add("lazy histories", 80, lambda: sg.lazy_history(rng, rng.randint(8, 45)))
     add("purge histories", 60, lambda: sg.purge_history(rng))
+
+    def wide_wipe():
+        """a few thousand entities, an irregular half of them deleted, delete_all, then creations: the handles
+        handed out after the wipe follow the order in which delete_all killed (and recycled) the live entities"""
+        n = rng.choice([1500, 2500, 4000])
+        h = [(wg.CI, [n])]
+        victims = [k for k in range(n) if rng.random() < 0.45]
+        for i in range(0, len(victims), 97):
+            h.append((wg.DM, victims[i:i + 97]))
+        h.append((wg.M, []))
+        h.append((wg.DA, []))
+        h.append((wg.CI, [rng.randint(40, 200)]))
+        h.append((wg.JE, []))
+        h.append((wg.M, []))
+        h.append((wg.ECI, [rng.randint(10, 60)]))
+        h.append((wg.JE, []))
+        return h
+    add("delete_all over a few thousand irregularly populated indices", 4, wide_wipe)
     for focus in ("join", "restrict", "changeset"):
         add("%s-focused join histories" % focus, 40, lambda: jg.join_history(rng, rng.randint(6, 30), focus))
     return hists, stats
